@@ -102,6 +102,8 @@ def random_step(rng, profile, allow_repack=True):
                     src=rng.randrange(4))
     elif name in ('has', 'get'):
         step.update(keys=sorted(set(_keys(rng, 4, UNIVERSE))))
+        if len(step['keys']) == 1 and rng.random() < 0.6:
+            step['single'] = rng.choice([True, 'stream']) if name == 'get' else True
     return step
 
 
@@ -131,6 +133,8 @@ def aba_histories(rng):
         'pack': {'name': 'pack', 'mode': 'AUTO', 'perpack': True, 'validate': False},
         'loosen': {'name': 'loosen', 'keys': [key]},
         'get': {'name': 'get', 'keys': [key, 'k7']},
+        'get1': {'name': 'get', 'keys': [key], 'single': 'stream'},
+        'has1': {'name': 'has', 'keys': [key], 'single': True},
         'listpart': {'name': 'listpart'},
     }
     disturbances = {
@@ -151,6 +155,14 @@ def aba_histories(rng):
                 steps.append({'name': 'has', 'keys': [key, 'k3', 'k7']})
                 cfg = {'hash': 'sha256', 'prefix': 2, 'zlevel': 1, 'target': rng.choice([120, 10 ** 9])}
                 out.append((cfg, steps, f'{sname};{cname};{dname};{cname}'))
+    # gaps in the pack numbering: three packs of one object each, the middle one (or the first) is emptied and removed by a
+    # repack, then the same again above the gap
+    one = lambda k: {'name': 'addpack', 'keys': [k], 'z': False, 'noholes': False, 'twice': True, 'via': 'bytes'}  # noqa
+    for first_gone, second_gone, mode in (('k3', 'k6', 'KEEP'), ('k2', 'k6', 'YES'), ('k3', 'k2', 'NO'), ('k2', 'k3', 'KEEP')):
+        steps = [one('k2'), one('k3'), one('k6'), {'name': 'delete', 'keys': [first_gone]}, {'name': 'repack', 'mode': mode},
+                 {'name': 'has', 'keys': ['k2', 'k3', 'k6']}, one('k5'), {'name': 'delete', 'keys': [second_gone]},
+                 {'name': 'repack', 'mode': mode}, {'name': 'list'}, {'name': 'reopen'}, one('k7'), {'name': 'repack', 'mode': mode}]
+        out.append(({'hash': 'sha256', 'prefix': 2, 'zlevel': 1, 'target': 1}, steps, f'gap;{first_gone};{second_gone};{mode}'))
     return out
 
 
@@ -407,6 +419,25 @@ class Runner:
             if name == 'initagain':
                 cont.init_container()
                 return [], ''
+            if name in ('has', 'get', 'meta') and step.get('single') and len(step['keys']) == 1:
+                # the single-key entry points of the API (they may take their own path through the library)
+                from disk_objectstore.exceptions import NotExistent  # pylint: disable=import-outside-toplevel
+                nm = step['keys'][0]
+                key = self.key_of[nm]
+                try:
+                    if name == 'has':
+                        return ([nm] if cont.has_object(key) else []), ''
+                    if name == 'get':
+                        if step['single'] == 'stream':
+                            with cont.get_object_stream(key) as stream:
+                                value = stream.read()
+                        else:
+                            value = cont.get_object_content(key)
+                        return [nm if value == self.full.table.get(nm) else f'WRONG:{nm}'], ''
+                    meta = cont.get_object_meta(key)
+                    return [nm if meta.size == len(self.full[nm]) else f'WRONG:{nm}'], ''
+                except NotExistent:
+                    return [], ''
             if name == 'has':
                 flags = cont.has_objects([self.key_of[k] for k in step['keys']])
                 return [k for k, f in zip(step['keys'], flags) if f], ''
@@ -685,7 +716,9 @@ def run_histories(report: common.Report, profile: str, count: int, length: int, 
     if handles == ('h1',):
         aba = aba_histories(rng)
         if common.tier() != 'thorough':
-            aba = rng.sample(aba, len(aba) // 2)      # half of the family per quick run, all of it in the thorough tier
+            gaps = [x for x in aba if x[2].startswith('gap;')]
+            rest = [x for x in aba if not x[2].startswith('gap;')]
+            aba = rng.sample(rest, len(rest) // 2) + gaps     # half of the family per quick run, all of it in the thorough tier
         for cfg, steps, _label in aba:
             jobs.append((len(jobs) + 1, cfg, steps))
             n_aba += 1
@@ -753,7 +786,7 @@ def run_histories(report: common.Report, profile: str, count: int, length: int, 
     report.set('histories_from_tlc_simulation', n_sim)
     report.set('systematic_aba_histories', n_aba)
     if conform:
-        conformance(report, traces, handles=handles, list_pinned=LIST_PINNED)
+        conformance(report, [t for t in traces if not t['cfg'].get('noconform')], handles=handles, list_pinned=LIST_PINNED)
     report.sample({'cfg': traces[0]['cfg'], 'steps': traces[0]['steps']})
     report.sample({'line': {k: v for k, v in traces[0]['lines'][min(3, len(traces[0]['lines']) - 1)].items()}})
     return traces
